@@ -477,6 +477,9 @@ def lin_lits(rng, ctx):
 
 
 HINTS = {
+    ("RelativizedPigeonholePrinciple", "pigeons"): lambda rng, ctx: rng.choice([0, 1, 2, 3, 4, -1]),
+    ("RelativizedPigeonholePrinciple", "resting_places"): lambda rng, ctx: rng.choice([0, 1, 2, 3, 4, -1]),
+    ("RelativizedPigeonholePrinciple", "holes"): lambda rng, ctx: rng.choice([0, 1, 2, 3, -1]),
     ("BinaryPigeonholePrinciple", "pigeons"): lambda rng, ctx: rng.choice([0, 1, 2, 3, 4, -1]),
     ("BinaryPigeonholePrinciple", "holes"): lambda rng, ctx: rng.choice([0, 1, 2, 3, 4, 5, 8, 9, -1]),
     ("PigeonholePrinciple", "pigeons"): lambda rng, ctx: rng.choice([0, 1, 2, 3, 4, 5, -1]),
